@@ -66,7 +66,7 @@ func (c *Ctx) BadgerBufferDiscipline(prop string) {
 			return IsCallTo(ci, "(*"+pkgBadger+".Item).ValueCopy") || IsCallTo(ci, "(*"+pkgBadger+".Item).KeyCopy")
 		}))
 	}
-	c.R.Floor(rule, "reads of badger items (Value callbacks, Key calls, copying accessors)", n, 3)
+	c.R.Floor(rule, "reads of badger items (Value callbacks, Key calls, copying accessors)", n, 2) // one value read and one key read at least (Fetch and FetchAll may share the value reader)
 }
 
 // transientEscapes returns an instruction through which the transient byte slice v is retained, or nil if every use is a
